@@ -48,6 +48,11 @@ MixFive == [a |-> Atts(<<A("k1", 0, 1, "A"), A("k2", 0, 1, "A")>>),
 MixAbandon == [a |-> Prop(P("k1", 1, "A")),
                b |-> Prop(P("k1", 2, "A")),
                c |-> Prop(P("k1", 2, "B"))]
+\* the two endpoints on one key: an older single request, a batch, then a single request conflicting with the batch's entry
+MixEndpoints == [a |-> Att(A("k1", 0, 1, "A")),
+                 b |-> Atts(<<A("k1", 1, 2, "A"), A("k2", 1, 2, "A")>>),
+                 c |-> Att(A("k1", 1, 2, "B"))]
+CatEndpoints(r) == One(MixEndpoints, r)
 CatAbandon(r) == One(MixAbandon, r)
 CatOpposite(r) == One(MixOpposite, r)
 CatSurround(r) == One(MixSurround, r)
